@@ -64,7 +64,9 @@ AbsGraph(g) ==
 CompileJudge(e, pre, post) ==
   LET c   == e.cmd
       r   == e.res
-      ref == Chain(Bodies(pre), c.svc, [dc |-> c.ctx.dc, op |-> c.ctx.op])
+      \* the stored entries, or the explicit set of the command (the proposed set of a rejected write)
+      E   == IF "set" \in DOMAIN c THEN {Body(x) : x \in Range(c.set)} ELSE Bodies(pre)
+      ref == Chain(E, c.svc, [dc |-> c.ctx.dc, op |-> c.ctx.op])
       g   == [start |-> r.g.start, nodes |-> Range(r.g.nodes), targets |-> Range(r.g.targets)]
       ok  == r.class = "ok"
       uq  == UniqueIds(g)
